@@ -171,6 +171,12 @@ def validate_trace(trace_module, cfg, trace_path, timeout=1800, name=None):
         res["accepted"] = True
         res["matched"] = total
         return res
+    # TLC could not evaluate the trace spec on an event (e.g. a field the event should carry is missing
+    # because the implementation took an unexpected path): the event is not explained by the specification
+    if re.search(r"nonexistent field|Attempted to (select|access|apply|check|compare)", out):
+        res["matched"] = max(0, r["generated"] - 1) if r["generated"] else 0
+        res["violated"] = "evaluation error on the event (unexpected shape)"
+        return res
     raise ToolError("trace validation did not complete:\n" + out[-4000:])
 
 
